@@ -362,13 +362,63 @@ func runHist(run *hx.Run, jc jcase) {
 }
 
 // ------------------------------------------------------------ the real loops under real time
+// availability windows of the live recorder, measured conservatively: a
+// window opens BEFORE the status is switched to available and closes AFTER
+// the switch to unavailable has returned, so every sequencer iteration that
+// read "available" lies inside a window.
+type window struct{ from, to time.Time } // to.IsZero(): still open
+
+type liveNet struct {
+	rec  *recorder
+	mu   sync.Mutex
+	wins []window
+}
+
+func (l *liveNet) set(avail bool) {
+	l.mu.Lock()
+	defer l.mu.Unlock()
+	open := len(l.wins) > 0 && l.wins[len(l.wins)-1].to.IsZero()
+	if avail && !open {
+		l.wins = append(l.wins, window{from: time.Now()})
+		l.rec.setAvail(true)
+	} else if !avail && open {
+		l.rec.setAvail(false)
+		l.wins[len(l.wins)-1].to = time.Now()
+	}
+}
+
+// maxTicks bounds the number of sequencer iterations that can have seen the
+// network available between from and to: an iteration takes at least one
+// resolution (time.After never fires early), so a window of length w holds at
+// most floor(w/res)+1 of them.
+func (l *liveNet) maxTicks(from, to time.Time, res time.Duration) uint64 {
+	l.mu.Lock()
+	defer l.mu.Unlock()
+	var n uint64
+	for _, w := range l.wins {
+		a, b := w.from, w.to
+		if b.IsZero() || b.After(to) {
+			b = to
+		}
+		if a.Before(from) {
+			a = from
+		}
+		if b.Before(a) {
+			continue
+		}
+		n += uint64(b.Sub(a)/res) + 1
+	}
+	return n
+}
+
 func runLive(run *hx.Run, jc jcase) {
 	res := time.Duration(jc.Res)
 	ft := time.Duration(jc.Ft)
-	T := int64(ft / res)
+	T := uint64(ft / res)
 	prev := blocker.VerifSetResolution(res)
 	defer blocker.VerifSetResolution(prev)
-	rec := &recorder{status: p2p.NetworkStatusAvailable}
+	rec := &recorder{status: p2p.NetworkStatusUnavailable}
+	net := &liveNet{rec: rec}
 	seen := map[string]bool{}
 	viol := func(sig, detail string) {
 		if !seen[sig] {
@@ -376,6 +426,8 @@ func runLive(run *hx.Run, jc jcase) {
 			run.Violate(hx.Violation{Sig: sig, Detail: detail, Case: jc})
 		}
 	}
+	tNew := time.Now()
+	net.set(true)
 	b := blocker.New(rec, ft, blockDur, res, rec.callback, logger)
 	defer b.Close()
 	count := func(a string) (n int, first time.Time) {
@@ -391,9 +443,20 @@ func runLive(run *hx.Run, jc jcase) {
 		}
 		return
 	}
+	// the monotonic sequence counts only iterations that saw the network
+	// available: it can never exceed what the available windows can hold
+	checkSeq := func(where string) {
+		s := b.VerifSequence() // read first, clock afterwards: conservative
+		now := time.Now()
+		run.OracleChecked(1)
+		if max := net.maxTicks(tNew, now, res); s > max {
+			viol("live:sequence-exceeds-available-time", fmt.Sprintf("%s: sequence %d, but the network was available for at most %d iterations of %v", where, s, max, res))
+		}
+	}
 	waitFor := func(a string, d time.Duration) bool {
 		dl := time.Now().Add(d)
 		for time.Now().Before(dl) {
+			checkSeq("while waiting")
 			if n, _ := count(a); n > 0 {
 				return true
 			}
@@ -401,25 +464,37 @@ func runLive(run *hx.Run, jc jcase) {
 		}
 		return false
 	}
+	// a blocklisting needs more than T iterations that saw the network available since the flag
+	checkBlockTime := func(a string, flaggedAt time.Time) {
+		n, at := count(a)
+		if n == 0 {
+			return
+		}
+		run.OracleChecked(1)
+		if max := net.maxTicks(flaggedAt, at, res); max < T+1 {
+			viol("live:blocked-before-flag-timeout", fmt.Sprintf("blocklisted %v after the flag; in between the network was available for at most %d iterations of %v, the flag timeout %v needs %d", at.Sub(flaggedAt), max, res, ft, T+1))
+		}
+	}
 	p, q, r, u := jc.Pool[0], jc.Pool[1], jc.Pool[2], jc.Pool[3]
-	quiet := 12 * time.Duration(T+1) * res
+	outage := 12 * time.Duration(T+1) * res // more than 5x the flag timeout
 
-	// 1. flagged and never succeeding: blocklisted, not before T*resolution, exactly once
+	// 1. flagged and never succeeding: blocklisted, not too early, exactly once
 	t0 := time.Now()
 	b.Flag(addrOf(p))
 	run.OracleChecked(6)
 	if !waitFor(p, 20*time.Second) {
 		viol("live:not-blocked-after-flag-timeout", "flagged peer not blocklisted within 20s")
-	} else if _, at := count(p); at.Sub(t0) < time.Duration(T)*res {
-		viol("live:blocked-before-flag-timeout", fmt.Sprintf("blocklisted %v after the flag, timeout %v", at.Sub(t0), ft))
 	}
-	// 2. flagged, then the network becomes unavailable: not blocklisted until it is back
+	checkBlockTime(p, t0)
+	// 2. flagged, then an outage longer than the flag timeout, then recovery:
+	//    the outage must not count
+	tq := time.Now()
 	b.Flag(addrOf(q))
-	rec.setAvail(false)
+	net.set(false)
 	s1 := b.VerifSequence()
 	deadline, stillFlagged := b.VerifFlagged()[string(unhex(q))]
 	b.Flag(addrOf(u)) // no effect while unavailable
-	time.Sleep(quiet)
+	time.Sleep(outage)
 	// at most the one iteration that had read "available" before the switch may still count
 	if s2 := b.VerifSequence(); s2 > s1+1 {
 		viol("live:sequence-advanced-while-network-unavailable", fmt.Sprintf("sequence %d -> %d while unavailable", s1, s2))
@@ -427,16 +502,20 @@ func runLive(run *hx.Run, jc jcase) {
 	if n, _ := count(q); n > 0 && stillFlagged && deadline >= s1+1 {
 		viol("live:blocked-while-network-unavailable", "peer blocklisted although fewer than timeout ticks saw the network available")
 	}
-	rec.setAvail(true)
+	checkSeq("end of outage")
+	net.set(true)
 	if !waitFor(q, 20*time.Second) {
 		viol("live:not-blocked-after-flag-timeout", "flagged peer not blocklisted within 20s after the network came back")
 	}
+	checkBlockTime(q, tq)
+	checkSeq("after recovery")
 	// 3. success before the timeout; 4. pruned as unseen
 	b.Flag(addrOf(r))
 	b.Unflag(addrOf(r))
 	b.Flag(addrOf(jc.Pool[4]))
 	b.PruneUnseen([]boson.Address{addrOf(p)})
-	time.Sleep(quiet)
+	time.Sleep(outage / 2)
+	checkSeq("end")
 	if n, _ := count(r); n > 0 {
 		viol("live:blocked-after-unflag", "peer blocklisted after Unflag")
 	}
@@ -558,6 +637,9 @@ func corpus() []jcase {
 		{Kind: "new", Ft: 1000000000, Res: 1000000000, Wake: 1000000000},
 		{Kind: "new", Ft: 1000000001, Res: 1000000000, Wake: 999999999},
 		{Kind: "new", Ft: 1000000001, Res: 1000000000, Wake: 1000000000},
+		// the real sequencer and sweep goroutines through an outage 12x the flag timeout (seeded change C26-2)
+		{Kind: "live", Ft: 12000000, Res: 2000000, Pool: append(append([]string{}, pool...), a(4), a(5))},
+		{Kind: "live", Ft: 16500000, Res: 3000000, Pool: append(append([]string{}, pool...), a(4), a(5))},
 	}
 }
 
